@@ -116,7 +116,7 @@ def linearizable(hist, init, final, ignore=None):
             if any(before[j][i] and j not in done for j in range(n)):
                 continue
             res, s2 = model_apply(hist[i]["op"], state)
-            if i != ignore and res != hist[i]["res"]:
+            if i != ignore and not hist[i].get("any_result") and res != hist[i]["res"]:
                 continue
             if dfs(done | frozenset([i]), s2):
                 return True
@@ -132,18 +132,43 @@ class NsConcWorld(World):
             "Pyro5.nameserver.SqlStorage over a real sqlite file (each storage call one scheduling atom)", "Pyro5.core.URI"]
     STUB = ["threading.RLock (simulated, baton scheduler)", "client threads call NameServer methods directly (no wire)"]
     PROBES = ["overlap", "preempted", "safe_register_conflict", "remove_conflict", "naming_error", "sql_storage",
-              "list_during_mutation", "stalled", "commtimeout"]
+              "list_during_mutation", "stalled", "commtimeout", "autoclean", "autoclean_removed"]
     RULE = ("plan = (storage, initial registrations, 2-4 threads x 1-2 operations on names with a common prefix, "
             "pre-emption probabilities); distinct = distinct interleaving digest; non-trivial = at least two operations "
             "overlapped in time and at least one scheduling choice deviated from run-to-block")
     ASSUMPTIONS = ["pre-emption granularity is the source line inside NameServer/MemoryStorage methods",
                    "with SqlStorage every storage call is one scheduling atom (no pre-emption inside sqlite)",
-                   "histories have at most 8 operations so that the linearizability search is exhaustive"]
+                   "histories have at most 8 operations so that the linearizability search is exhaustive",
+                   "10% of the plans run the name server's AutoCleaner thread (NS_AUTOCLEAN=3 s) with 1-3 registrations whose daemons "
+                   "do not answer; the clients operate at the virtual instant of the cleaner's removing pass (~24 s); each dead name "
+                   "that is gone at the end counts as one more concurrent remove(name) with unknown result, linearised anywhere in the run"]
     QUICK_RUNS = 40000
     CHUNK = 250
     SHRINK_LISTS = ["threads.0", "threads.1", "threads.2", "threads.3", "init"]
 
     def gen(self, rng, tier):
+        plan = self._gen(rng, tier)
+        if rng.random() < 0.1:
+            # the name server's own background thread: NS_AUTOCLEAN on, two registrations whose daemons do not answer.
+            # The AutoCleaner removes them ~24 virtual seconds after it started, which is when the clients operate
+            dead = ["dead.%d" % i for i in range(1, rng.randint(1, 3) + 1)]
+            for i, n in enumerate(dead):
+                plan["init"].append({"op": "register", "name": n, "uri": "PYRO:gone%d@dead:%d" % (i, 9 + i), "safe": False, "meta": None})
+            plan["autoclean"] = {"dead": dead, "at": [rng.choice([23.99, 24.0, 24.0, 24.0, 24.001, 26.0]) for _ in range(4)]}
+            for ops in plan["threads"]:
+                for op in ops:
+                    # reads that see the doomed names make the race observable
+                    if op["op"] == "list" and rng.random() < 0.6:
+                        op["prefix"] = rng.choice([None, "dead.", "d"])
+                    elif op["op"] == "lookup" and rng.random() < 0.3:
+                        op["name"] = rng.choice(dead)
+                    elif op["op"] == "remove" and op.get("name") and rng.random() < 0.2:
+                        op["name"] = rng.choice(dead)
+                    elif op["op"] == "set_metadata" and rng.random() < 0.2:
+                        op["name"] = rng.choice(dead)
+        return plan
+
+    def _gen(self, rng, tier):
         storage = "sql" if rng.random() < 0.2 else "memory"
         nthreads = rng.randint(2, 4)
         names = NAMES[:rng.randint(2, 3)] + (["b"] if rng.random() < 0.3 else [])
@@ -248,6 +273,11 @@ class NsConcWorld(World):
                 "p_block": rng.choice([0.2, 0.5, 1.0])}
 
     def line_codes(self, plan):
+        if plan.get("autoclean"):
+            key = plan["storage"] + "+cleaner"
+            if key not in _CODES:
+                _CODES[key] = list(_codes(plan["storage"])) + list(S.code_objects(NS.AutoCleaner))
+            return _CODES[key]
         return _codes(plan["storage"])
 
     def make_plan(self, run_seed, tier):
@@ -280,8 +310,30 @@ class NsConcWorld(World):
                 _, init = model_apply(op, init)
             hist = []
             internal = []
+            ac = plan.get("autoclean")
+            cleaner = None
+            t_begin = sched.stamp()
+            if ac:
+                ctx.probe("autoclean")
+                config.NS_AUTOCLEAN = 3.0
+                # the daemons behind the ordinary names answer on their ports; those behind the dead.* names do not
+                from .. import net as N
+                self._listeners = []
+                for op in plan["init"] + [o for ops in plan["threads"] for o in ops]:
+                    u = op.get("uri")
+                    if u and "@dead:" not in u:
+                        host, port = u.split("@", 1)[1].rsplit(":", 1)
+                        if (host, int(port)) not in ctx.net.listeners:
+                            ls = N.SimSocket(ctx.net)
+                            ls.listen_on((host, int(port)))
+                            self._listeners.append(ls)
+                cleaner = NS.AutoCleaner(ns)
+                cleaner.name = "autocleaner"
+                cleaner.start()
 
-            def client(ops):
+            def client(ops, k=0):
+                if ac:
+                    sched.sleep(ac["at"][k % len(ac["at"])])
                 for op in ops:
                     h = {"op": op, "inv": sched.stamp()}
                     sched.yield_point("op")
@@ -310,7 +362,7 @@ class NsConcWorld(World):
                             internal.append((op, x))
                     hist.append(h)
 
-            ths = [threading.Thread(target=client, args=(ops,), name="ns-client%d" % i)
+            ths = [threading.Thread(target=client, args=(ops, i), name="ns-client%d" % i)
                    for i, ops in enumerate(plan["threads"]) if ops]
             for t in ths:
                 t.start()
@@ -342,8 +394,23 @@ class NsConcWorld(World):
                         seen.add(key)
                         ctx.violate("internal-error", key, "%s raised %s: %s" % (self._kind(op), type(x).__name__, x))
                 return
+            if cleaner is not None:
+                cleaner.stop = True
+                sched.sleep(5.0)           # the cleaner finishes the pass it may be in and leaves
+                st = sched.sim_thread_of(cleaner)
+                if st is not None and st.died:
+                    ctx.violate("internal-error", "%s:autocleaner" % st.died[0], "the AutoCleaner thread died: %r" % (st.died,))
+                    return
             final_raw = ns.list(return_metadata=True)
             final = {n: (u, frozenset(t or ())) for n, (u, t) in final_raw.items()}
+            if ac:
+                # what the cleaner did is one more concurrent client: a dead name that is gone at the end was removed by somebody,
+                # at some point of the run (how the cleaner removes - through NameServer.remove or otherwise - is its business)
+                t_end = sched.stamp()
+                for n in ac["dead"]:
+                    if n not in final:
+                        hist.append({"op": {"op": "remove", "name": n}, "inv": t_begin, "ret": t_end, "res": None, "any_result": True})
+                        ctx.probe("autoclean_removed")
             self._probes(ctx, hist)
             if not linearizable(hist, init, final):
                 culprits = []
